@@ -15,6 +15,7 @@ package main
 
 import (
 	"bytes"
+	"encoding/hex"
 	"fmt"
 	"io"
 	"math/rand/v2"
@@ -686,4 +687,74 @@ func lookaheadDocs() []*doc {
 			data: append([]byte(nil), t.buf.Bytes()...), refs: R(nums...), light: true})
 	}
 	return res
+}
+
+type nopWC struct{ *bytes.Buffer }
+
+func (nopWC) Close() error { return nil }
+
+func encodeWith(v pdf.Version, f pdf.Filter, body []byte) []byte {
+	buf := &bytes.Buffer{}
+	w, err := f.Encode(v, nopWC{buf})
+	if err != nil {
+		panic(err)
+	}
+	if _, err := w.Write(body); err != nil {
+		panic(err)
+	}
+	if err := w.Close(); err != nil {
+		panic(err)
+	}
+	return buf.Bytes()
+}
+
+// indirectParmDocs: stream dictionaries whose /Filter, /DecodeParms (the whole
+// value and single array elements) and /Length are indirect references that
+// DecodeStream / Get resolve, with parameters that change the decoded bytes
+// (PNG predictor, TIFF predictor, LZW EarlyChange): a parameter object that is
+// lost to a read fault must not silently become "no parameters".
+func indirectParmDocs() []*doc {
+	R := func(ns ...int) []pdf.Reference {
+		var r []pdf.Reference
+		for _, n := range ns {
+			r = append(r, pdf.NewReference(uint32(n), 0))
+		}
+		return r
+	}
+	body := make([]byte, 160)
+	for i := range body {
+		body[i] = byte(i*7 + i/16)
+	}
+	png := encodeWith(pdf.V1_7, pdf.FilterFlate{Predictor: pdf.FlatePredictorPNGUp, Colors: 1, BitsPerComponent: 8, Columns: 4}, body)
+	tiff := encodeWith(pdf.V1_7, pdf.FilterFlate{Predictor: pdf.FlatePredictorTIFF, Colors: 1, BitsPerComponent: 8, Columns: 8}, body)
+	lzw0 := encodeWith(pdf.V1_7, pdf.FilterLZW{OffByOne: false}, bytes.Repeat(body, 4))
+	hexpng := []byte(hex.EncodeToString(png) + ">")
+
+	t := newTextDoc("1.7")
+	t.obj(1, "<< /Type /Catalog /Pages 2 0 R >>")
+	t.obj(2, pagesObj)
+	// array form, the parameter dictionary of the only filter is a reference
+	t.stream(3, "/Filter [ /FlateDecode ] /DecodeParms [ 4 0 R ]", png)
+	t.obj(4, "<< /Predictor 12 /Columns 4 >>")
+	// name form, both values are references
+	t.stream(5, "/Filter 6 0 R /DecodeParms 7 0 R", tiff)
+	t.obj(6, "/FlateDecode")
+	t.obj(7, "<< /Predictor 2 /Columns 8 >>")
+	// the arrays themselves and their elements are references
+	t.stream(8, "/Filter 9 0 R /DecodeParms 10 0 R", lzw0)
+	t.obj(9, "[ 11 0 R ]")
+	t.obj(10, "[ 12 0 R ]")
+	t.obj(11, "/LZWDecode")
+	t.obj(12, "<< /EarlyChange 0 >>")
+	// two filters: null for the first, a reference for the second
+	t.stream(13, "/Filter [ /ASCIIHexDecode 6 0 R ] /DecodeParms [ null 4 0 R ]", hexpng)
+	// indirect /Length on top of indirect parameters, the length object comes later
+	t.offs[14] = t.buf.Len()
+	fmt.Fprintf(&t.buf, "14 0 obj\n<< /Filter /FlateDecode /DecodeParms 4 0 R /Length 15 0 R >>\nstream\n")
+	t.buf.Write(png)
+	t.buf.WriteString("\nendstream\nendobj\n")
+	t.obj(15, fmt.Sprint(len(png)))
+	t.xref(16, "/Root 1 0 R", []int{1, 2, 3, 4, 5, 6, 7, 8, 9, 10, 11, 12, 13, 14, 15}, true)
+	return []*doc{{name: "hand-indirect-filter-parameters", class: "hand:indirect-Filter-DecodeParms-Length",
+		data: append([]byte(nil), t.buf.Bytes()...), refs: R(3, 5, 8, 13, 14)}}
 }
